@@ -279,7 +279,10 @@ CONFIG = {
                       "correctness in every prime-order module are Lean theorems about the executable RFC 8032 specification (arithmetic over Nat); fork, "
                       "specification and crypto/ed25519 are compared three ways on every generated input.",
         "level_note": "PARTIAL: that the fork's limb arithmetic (scMulAdd/scReduce, field.Element) equals arithmetic mod L / mod p for every input is not proved; "
-                      "it is covered by the differential stream only. Public keys must be 32 bytes (documented precondition).",
+                      "it is covered by the differential stream only: signatures/keys against crypto/ed25519, and — through hooks on the internal "
+                      "scalar arithmetic — structured limb patterns plus a bulk random search of 2^25 (quick) / 2^29 (thorough) 64-byte reductions "
+                      "against math/big. A limb-arithmetic defect that shows on fewer than about one input in 2^27 would not be found. "
+                      "Public keys must be 32 bytes (documented precondition).",
         "trusted_base": COMMON_TB + ["crypto/ed25519 as the reference", "PatVerif/Exec/Ed25519 (validated differentially)"],
         "assumptions": ["limb arithmetic refines Nat arithmetic (observed)"],
         "extra_modules": ["PatVerif.Proofs.Sig", "PatVerif.Proofs.DER"],
